@@ -511,6 +511,12 @@ func (l *loopState) notifySteps() { //nolint:gocognit
 				l.logger.Debugf("Output node %s failed", nodeID)
 				// Check to see if there are any remaining output nodes, and if there aren't,
 				// cancel the context.
+				// A failed output node can be marked ready again each time another one of its
+				// dependencies fails, so only react the first time; otherwise the same error
+				// would be sent repeatedly and eventually block on the full error channel.
+				if _, isWaiting := l.waitingOutputs[nodeID]; !isWaiting {
+					continue
+				}
 				delete(l.waitingOutputs, nodeID)
 				if len(l.waitingOutputs) == 0 && !l.outputDone {
 					l.recentErrors <- &ErrNoMorePossibleOutputs{
